@@ -1210,6 +1210,7 @@ func c11OSFile(f c11FileIn, j int) *os.File {
 			return nil
 		}
 		c11TmpDir = d
+		proto.OnExit(func() { _ = os.RemoveAll(d) })
 	}
 	c11TmpSeq++
 	dir := filepath.Join(c11TmpDir, strconv.Itoa(c11TmpSeq%64)) // same name twice in one case: separate directories
